@@ -105,7 +105,7 @@ def _case(draw):
         case["turns"] = [[draw(st.one_of(st.integers(-3, 3), st.integers(-10**6, 10**6))) for _ in range(d)] for _ in range(rows)]
     if cls in ("affine",) or case.get("affine") or "free" in case.get("kinds", []) or "half" in case.get("kinds", []):
         case["free_seed"] = draw(st.integers(0, 2**31 - 1))
-        case["free_scale"] = draw(st.sampled_from([1e-3, 1.0, 50.0, 1e4]))
+        case["free_scale"] = draw(st.sampled_from([1e-3, 1.0, 50.0, 1e4, 1e-8]))
         case["free_shift"] = draw(st.sampled_from([0.0, 1.0, -30.0, 1e3]))
     return case
 
